@@ -815,7 +815,7 @@ Proof.
   unfold to_offline. destruct (k_wsem c);
     try (apply qsat_bind_any; [apply tell_q|]; intros _; apply qsat_ret;
          rewrite kp_break_pending, krb_break_pending; split; [reflexivity|right; reflexivity]).
-  apply qsat_ret. auto.
+  apply qsat_bind_any; [apply tell_q|]. intros _. apply qsat_ret. split; [reflexivity | left; reflexivity].
 Qed.
 
 Lemma resend_q fuel cn space : forall seqno acc subm,
